@@ -362,6 +362,7 @@ pub fn worker_main(check: &dyn Check, tier: Tier, seed: u64, shard: u64, nshards
     let stdout = std::io::stdout();
     let mut stats = Stats::default();
     let mut index = shard;
+    let mut last_partial = Instant::now();
     while index < cases {
         {
             let mut o = stdout.lock();
@@ -382,6 +383,12 @@ pub fn worker_main(check: &dyn Check, tier: Tier, seed: u64, shard: u64, nshards
             let _ = writeln!(o, "VIOL {rec}");
         }
         let _ = writeln!(o, "END {index} {}", res.digest);
+        // cumulative counters now and then, so that a worker the watchdog kills does not take them along
+        // (bookkeeping for the evidence only: no verdict and no digest depends on it)
+        if last_partial.elapsed().as_secs() >= 20 {
+            let _ = writeln!(o, "PSTATS {}", stats.to_json());
+            last_partial = Instant::now();
+        }
         let _ = o.flush();
         index += nshards;
     }
@@ -469,6 +476,10 @@ struct WorkerOut {
     last_begin: Option<u64>,
     status: Option<std::process::ExitStatus>,
     timed_out: bool,
+    /// the watchdog killed the worker but the case it was in completes in a fresh process: a stall of the machine
+    stalled: bool,
+    /// last cumulative counters a worker reported before it died
+    partial: Option<Stats>,
     stderr: String,
 }
 
@@ -527,6 +538,8 @@ fn run_worker(
         last_begin: None,
         status: None,
         timed_out: false,
+        stalled: false,
+        partial: None,
         stderr: String::new(),
     };
     for line in BufReader::new(stdout).lines() {
@@ -545,6 +558,10 @@ fn run_worker(
         } else if let Some(rest) = line.strip_prefix("VIOL ") {
             if let Ok(v) = serde_json::from_str::<Json>(rest) {
                 out.violations.push(v);
+            }
+        } else if let Some(rest) = line.strip_prefix("PSTATS ") {
+            if let Ok(v) = serde_json::from_str::<Json>(rest) {
+                out.partial = Some(Stats::from_json(&v));
             }
         } else if let Some(rest) = line.strip_prefix("STATS ") {
             if let Ok(v) = serde_json::from_str::<Json>(rest) {
@@ -587,18 +604,32 @@ pub fn run_batch(check: &dyn Check, tier: Tier, seed: u64, cases: u64, nshards: 
                     // a shard is described by (first index); after an abort we resume after the culprit
                     let mut start = shard;
                     let mut respawns = 0;
+                    let mut stalls = 0;
                     loop {
                         // worker takes `shard` as first index and steps by nshards
-                        let out = run_worker(&exe, id, tier, seed, start, nshards, cases, hang);
+                        let mut out = run_worker(&exe, id, tier, seed, start, nshards, cases, hang);
                         let crashed = out.stats.is_none();
                         let culprit = out.last_begin;
+                        // the hang limit is wall-clock: before blaming the case, run it alone; when it completes
+                        // there the machine stalled (e.g. memory pressure from unrelated jobs) and the shard resumes AT it
+                        let mut resume_at_culprit = false;
+                        if let (true, true, Some(c)) = (crashed, out.timed_out, culprit) {
+                            if stalls < 3 {
+                                let case = generate_case(check, seed, tier, c);
+                                if matches!(run_case_in_child(id, &case, hang), Ok(None)) {
+                                    out.stalled = true;
+                                    stalls += 1;
+                                    resume_at_culprit = true;
+                                }
+                            }
+                        }
                         outs.push(out);
                         if !crashed {
                             break;
                         }
                         respawns += 1;
                         match culprit {
-                            Some(c) if respawns < 50 => start = c + nshards,
+                            Some(c) if respawns < 50 => start = if resume_at_culprit { c } else { c + nshards },
                             _ => break,
                         }
                         if start >= cases {
@@ -625,10 +656,16 @@ pub fn run_batch(check: &dyn Check, tier: Tier, seed: u64, cases: u64, nshards: 
             match &out.stats {
                 Some(s) => stats.merge(s),
                 None => {
+                    if let Some(p) = &out.partial {
+                        stats.merge(p);
+                    }
                     // abnormal end: exit code 2 = harness panic; otherwise abort/kill inside a case
                     let code = out.status.and_then(|s| s.code());
                     if code == Some(2) {
                         harness_error = Some(format!("worker harness error: {}", out.stderr.trim()));
+                    } else if out.stalled {
+                        // not a verdict; the case was re-run by the respawned worker (the dead worker's partial counters are lost)
+                        stats.inc("harness.worker_restarted_after_machine_stall");
                     } else if let Some(index) = out.last_begin {
                         let case = generate_case(check, seed, tier, index);
                         let how = if out.timed_out {
